@@ -8,6 +8,7 @@ impl JournalManager {
     /// watermark's keyspace handle is well-formed
     pub open spec fn wf(&self, w: World) -> bool {
         &&& items_view(self.items@) == w.sealed
+        &&& (forall|i: int| 0 <= i < w.sealed.len() ==> (#[trigger] w.sealed[i]).path != w.journal.path)   // the active journal is never in the queue
         &&& (forall|i: int, j: int| 0 <= i < self.items@.len() && 0 <= j < self.items@[i].watermarks@.len() ==>
                 ks_wf(&(#[trigger] self.items@[i].watermarks@[j]).keyspace, w))
     }
